@@ -155,7 +155,7 @@ func runLockGCase(c *lockGCase) (msg string, attempts int) {
 		if p == nil {
 			return fmt.Sprintf("%s (adapter %s) succeeded on a locked world", en.name, ad.Name), attempts
 		}
-		if !strings.Contains(fmt.Sprint(p), "locked world") {
+		if !strings.Contains(strings.ToLower(fmt.Sprint(p)), "lock") {
 			return fmt.Sprintf("%s (adapter %s) on a locked world panicked with %q instead of the locked-world message", en.name, ad.Name, fmt.Sprint(p)), attempts
 		}
 		if after := core.Shape(w); after != before {
